@@ -15,7 +15,7 @@ use crate::zobrist::ZobristHasher;
 use serde_json::json;
 
 /// Random legal position with the given material (white pieces, black pieces besides kings).
-fn material_position(rng: &mut Rng, white: &[Kind], black: &[Kind], stm: Color) -> Option<Pos> {
+pub fn material_position(rng: &mut Rng, white: &[Kind], black: &[Kind], stm: Color) -> Option<Pos> {
     let mut p = Pos::empty();
     let corner_bias = rng.chance(2, 3);
     let place = |p: &mut Pos, rng: &mut Rng, pc: (Color, Kind), near_edge: bool| -> bool {
@@ -74,7 +74,7 @@ const MATERIALS: &[(&[Kind], &[Kind])] = &[
 ];
 
 #[derive(Clone, Copy, PartialEq, Eq, Debug)]
-enum Class {
+pub enum Class {
     MateIn1,
     AvoidableMate, // some but not all moves allow the opponent a mate in one
     MatedSoon,     // side to move is mated within 2 against best play
@@ -82,7 +82,7 @@ enum Class {
     Other,
 }
 
-fn classify(p: &Pos) -> Vec<Class> {
+pub fn classify(p: &Pos) -> Vec<Class> {
     let mut out = Vec::new();
     let legal = legal_moves(p);
     if legal.is_empty() {
@@ -119,7 +119,7 @@ fn classify(p: &Pos) -> Vec<Class> {
 }
 
 /// Positions 1-5 plies before a checkmate reached by oracle-driven random play (full material).
-fn near_mate_from_walks(rng: &mut Rng, starts: &[Pos], want: usize, tries: usize) -> Vec<Pos> {
+pub fn near_mate_from_walks(rng: &mut Rng, starts: &[Pos], want: usize, tries: usize) -> Vec<Pos> {
     let mut out = Vec::new();
     for _ in 0..tries {
         if out.len() >= want {
@@ -159,7 +159,7 @@ fn near_mate_from_walks(rng: &mut Rng, starts: &[Pos], want: usize, tries: usize
     out
 }
 
-fn check_root(root: &Root, classes: &[Class], depth: u8, h: &ZobristHasher, acc: &mut Acc, sample: bool) {
+pub fn check_root(root: &Root, classes: &[Class], depth: u8, h: &ZobristHasher, acc: &mut Acc, sample: bool) {
     let p = &root.hist.end;
     let fen = p.to_fen();
     let r = run_search(&root.board, &root.table, None, depth);
